@@ -11,6 +11,7 @@ import setupsim as S
 
 
 MS_OPTIONS, MS_DIRECTED, REFS, NEIGHBOURS, LOCAL_DIR = 40, 24, 24, 44, 16      # quick-tier sizes of the families added in round 5
+TAG_NAMED, LINE_OPTS = 30, 36                                                  # ... in round 6
 
 
 def gen_scenario(rng):
@@ -113,7 +114,54 @@ def gen_scenario_cli(rng):
     return s
 
 
-def oracle(ctx, s, res):
+LINE_OPTIONS = ["%s -k --vro current", "%s --keep --vro current", "%s --vro current -k", "-k --vro current %s",
+                "%s --vro current", "%s -k", "%s -k --vro latest", "%s --vro latest", "%s -k 1.0", "%s -k --vro current 1.0"]
+
+
+def gen_scenario_line_options(rng):
+    """the option words a dependency line may carry - its own -k / --keep, its own --vro <word>, both on one line, in either
+    order, with or without a version - against --keep on the command line (and, now and then, without it): the product
+    the line names is set up beforehand at a version that the line's own resolution order would not choose; a second
+    product below is set up beforehand too and asked for by a plain line"""
+    lo, lo2, mid, top = "p1", "p2", "p3", "p4"
+    vs = sorted(rng.sample(S.VERSIONS, rng.choice([2, 3])))
+    cur = rng.choice(vs[1:]) if rng.random() < 0.7 else vs[0]
+    other = rng.choice([v for v in vs if v != cur])
+    prods = {lo: {v: S.small_own(rng, lo) for v in vs},
+             lo2: {v: S.small_own(rng, lo2) for v in ("1.0", "2.0")}}
+    form = rng.choice(LINE_OPTIONS)
+    kind = rng.choice(["setupRequired", "setupRequired", "setupOptional"])
+    line = "%s(%s)" % (kind, form % lo)
+    plain = "setupRequired(%s)" % lo2
+    via_mid = rng.random() < 0.35
+    if via_mid:
+        prods[mid] = {"1.0": S.small_own(rng, mid) + [line]}
+        prods[top] = {"1.0": S.small_own(rng, top) + ["setupRequired(%s)" % mid, plain]}
+    else:
+        prods[mid] = {"1.0": S.small_own(rng, mid)}
+        prods[top] = {"1.0": S.small_own(rng, top) + [line, plain]}
+    rng.shuffle(prods[top]["1.0"])
+    w = {"root": rng.choice(["stack", "stack", "stack dir"]), "products": prods,
+         "current": {lo: cur, lo2: "2.0", mid: "1.0", top: "1.0"}, "generic": [], "family": "line-options"}
+    reqs = [{"name": lo, "fwd": True, "version": other}, {"name": lo2, "fwd": True, "version": "1.0"}]
+    rng.shuffle(reqs)
+    last = {"name": top, "fwd": True}
+    if rng.random() < 0.85:
+        last["keep"] = True
+    reqs.append(last)
+    if rng.random() < 0.4:
+        for q in reqs:
+            q["cli"] = True
+    return {"world": w, "requests": reqs, "env0": {"PATH": "/usr/bin:/bin"}}
+
+
+def oracle_versions_reached(ctx, s, res):
+    """the clauses of oracle with reachability read off the versions that matter to the request (those it decides on and
+    those set up before it): a dependency of a version that is neither set up nor asked for is a bystander"""
+    return oracle(ctx, s, res, reach=S.reach_by_versions)
+
+
+def oracle(ctx, s, res, reach=None):
     rec = res["records"][-1]
     rq = rec["request"]
     shape = ("keep" if rq.get("keep") else "just" if rq.get("just") else
@@ -129,6 +177,13 @@ def oracle(ctx, s, res):
         return
     case = {"world": s["world"], "requests": s["requests"], "env0": s["env0"]}
     touched = S.touched_names(res, rq["name"], just=bool(rq.get("just")), max_depth=rq.get("max_depth"))
+    if reach is not None:
+        narrow = reach(res, rec)
+        if not narrow <= touched:
+            raise RuntimeError("reachability over the versions that matter exceeds reachability over all versions")
+        if narrow != touched:
+            ctx.bump("bystanders:dependencies-of-a-version-neither-set-up-nor-asked-for")
+        touched = narrow
     dirs = S.product_dirs(res)
     # bystanders (and everything deeper than the stated depth): records, directory variables, table variables,
     # presence and relative order of their path elements
@@ -269,7 +324,10 @@ def run(ctx):
                 "select with -Z / -z); neighbours: a bystander whose name has the name of a reached product as a prefix "
                 "(afw / afwdata, either way round), -j on table lines with the owner unset up or replaced while the "
                 "dependencies of the product below were set up on their own, the exact block of an expanded table; "
-                "tables whose values refer to other variables; a case is "
+                "tables whose values refer to other variables; a version NAMED like a recognised tag (stable / current / latest) "
+                "set up while that tag sits on another version with other dependencies, then replaced or unset up (bystanders "
+                "= what the versions that are set up or asked for do not reach); dependency lines carrying -k / --keep and / "
+                "or --vro word against --keep on the command line; a case is "
                 "non-trivial when the final request succeeds from an environment in which something is set up; "
                 "distinct = distinct (world, requests)")
     ctx.trusted_base = common.COMMON_TRUSTED + [
@@ -284,7 +342,12 @@ def run(ctx):
                        "not exercised); reachability in the oracle reads the -j of table lines (a -j line reaches its "
                        "product and nothing below it: touches_j of Proofs/SetupFrameJ.v, setup_changes_only_what_it_reaches_j)",
                        "keep_retains: WF2, Eups.keep set and keep at the head of the VRO (what --keep does), a non-empty "
-                       "flavor list; composed model: dependency lines without -t / --vro / -k",
+                       "flavor list; composed model: dependency lines without -t / --vro / -k (the line-options family is "
+                       "tied through the decision-fed model and judged by the oracle; --vro version!, which switches an "
+                       "inherited --keep off by design, is not generated)",
+                       "tag-named versions: outside the composed and text-fed models (decision-fed model and oracle only); "
+                       "reachability over the versions that matter (setupsim.reach_by_versions) is an oracle-side "
+                       "refinement, the frame theorems quantify over the lines of every declared version",
                        "WF world of Proofs/SetupFrame.v for the theorems: path values non-empty, delimiter-free, "
                        "dollar-free; one delimiter per path variable; path, envSet and SETUP_/_DIR variables disjoint"]
     ctx.check_theorems()
@@ -322,6 +385,15 @@ def run(ctx):
         ctx.bump("family:" + sc["world"]["family"])
     for i in range(0, len(nb), 400):
         S.run_scenarios(ctx, nb[i:i + 400], oracle)
+    # round 6.  Versions NAMED like a recognised tag (a version called stable / current while that tag sits on another
+    # version with other dependencies): replacing or unsetting up the set-up version undoes ITS table; and the option
+    # words of dependency lines (-k, --vro word, both) against --keep on the command line
+    named = [S.gen_scenario_tagnamed(ctx.rng) for _ in range(ctx.size(TAG_NAMED, 600))]
+    opts = [gen_scenario_line_options(ctx.rng) for _ in range(ctx.size(LINE_OPTS, 600))]
+    for sc in named + opts:
+        ctx.bump("family:" + sc["world"]["family"])
+    S.run_scenarios_basic(ctx, named, oracle_versions_reached)
+    S.run_scenarios(ctx, opts, oracle)
     # products set up from a DIRECTORY (setup -r dir, version LOCAL:dir): outside the setup models, run on the real code
     # and judged by the oracle alone - --keep must retain them like any other product
     S.run_scenarios_local(ctx, [S.gen_scenario_local(ctx.rng) for _ in range(ctx.size(LOCAL_DIR, 300))], oracle_local)
@@ -334,6 +406,8 @@ def replay(ctx, path):
         S.run_scenarios_local(ctx, [s], oracle_local)
     elif S.is_ms(s["world"]):
         S.run_scenarios_ms(ctx, [s], oracle_ms)
+    elif s["world"].get("family", "").startswith("tag-named-version"):
+        S.run_scenarios_basic(ctx, [s], oracle_versions_reached)
     else:
         S.run_scenarios(ctx, [s], oracle)
     bad = [f for f in ctx.failures if not ctx._known(f)] or ctx.disagreements
